@@ -51,6 +51,18 @@ def hostile(t, frags=None):
     return '%s *%s* **%s** ~~%s~~\n# %s' % (p2, p3, p1, p2, p3)
 
 
+def _yields_private_use(text, opts):
+    """control rendering without any masking: does the document itself put private-use characters into the output
+    (literally or through numeric character references)?  Then they cannot serve as placeholders for raw HTML."""
+    from mistletoe import Document
+    try:
+        with renderers.make('Html', opts) as r:
+            out0 = r.render(Document(text))
+    except Exception:
+        return False
+    return any('\ue000' <= ch <= '\uf8ff' for ch in out0)
+
+
 def check_case(case):
     from mistletoe import Document
     text, opts = case['text'], case.get('opts') or {}
@@ -79,7 +91,9 @@ def check_case(case):
                         problems=[list(p) for p in problems[:6]]), nt=nt, labels=labels)
     if raw_on:
         seen = [ch for ch, _ in placeholders]
-        if sorted(seen) != sorted(used):
+        if sorted(seen) != sorted(used) and _yields_private_use(text, opts):
+            labels += ('placeholder-clause-not-applicable',)     # the document's own text contains placeholder characters
+        elif sorted(seen) != sorted(used):
             return Out(Fail('raw-html-verbatim', 'placeholder count', text=text, opts=opts, output=out,
                             used=len(used), seen=len(seen)), nt=nt, labels=labels)
     events2, problems2, _ = htmlscan.scan(out_neutral)
